@@ -161,22 +161,32 @@ def read_tlv(buf, off):
     return t, buf[o:o + ln], o + ln
 
 
+def wire_types():
+    """(StateVec, entry, SeqNo) type numbers as the library defines them today (T1 pins them to 201/202/204)"""
+    from ndn.app_support.svs import tlv as T
+    val = T.StateVecWrapper._encoded_fields[0]
+    ent = T.StateVec._encoded_fields[0].element_type
+    seq = [f for f in T.StateVecEntry._encoded_fields if f.name == 'seq_no'][0]
+    return int(val.type_num), int(ent.type_num), int(seq.type_num)
+
+
 def read_state_vector(comp):
     """Strict decoding of an emitted StateVec component into [(node-name TLV bytes, seq)].  The node name is
     kept opaque: what is observed is the bytes put on the wire, independently of how leniently
     ndn.encoding would read them back."""
+    t_vec, t_ent, t_seq = wire_types()
     t, body, end = read_tlv(comp, 0)
-    if t != 0xc9 or end != len(comp):
-        raise ValueError('not a 0xc9 component')
+    if t != t_vec or end != len(comp):
+        raise ValueError('not a StateVec component')
     vec, off, inner = [], 0, body
-    # the StateVec value is the sequence of entries (0xca), each Name (0x07) then SeqNo (0xcc)
+    # the StateVec value is the sequence of entries, each Name (0x07) then SeqNo
     while off < len(inner):
         t, ent, nxt = read_tlv(inner, off)
-        if t != 0xca:
+        if t != t_ent:
             raise ValueError('entry type')
         t1, v1, o1 = read_tlv(ent, 0)
         t2, v2, o2 = read_tlv(ent, o1)
-        if t1 != 7 or t2 != 0xcc or o2 != len(ent):
+        if t1 != 7 or t2 != t_seq or o2 != len(ent):
             raise ValueError('entry layout')
         vec.append((bytes(ent[:o1]), int.from_bytes(v2, 'big')))
         off = nxt
